@@ -222,6 +222,7 @@ VARIANTS = [
     V("finalize_kwargs stored by reference in the blueprint", ("C14",), "R-CAPTURE", "aggregations.py", '        agg.finalize_kwargs = copy.deepcopy(finalize_kwargs)', '        agg.finalize_kwargs = finalize_kwargs', must_mention="caller"),
     V("twin: finalize_kwargs copied with a dict display", ("C14",), "", "aggregations.py", '        agg.finalize_kwargs = copy.deepcopy(finalize_kwargs)', '        agg.finalize_kwargs = {**finalize_kwargs}', expect="silent"),
     V("eager arg reduction unravels the final-dtype slot without an integer cast", ("C19",), "R-INTINDEX", "core.py", '        results["intermediates"][0] = np.unravel_index(\n            results["intermediates"][0].astype(np.intp, copy=False), array.shape\n        )[-1]', '        results["intermediates"][0] = np.unravel_index(results["intermediates"][0], array.shape)[-1]', must_mention="only int indices"),
+    V("interpolation stores into the requested dtype under same-kind casting", ("C19",), "R-INPLACECAST", "aggregate_flox.py", '    np.add(a, diff_b_a * t, out=out, casting="unsafe")', '    np.add(a, diff_b_a * t, out=out)', must_mention="UFuncTypeError"),
     V("dtype promotion memoised with an untyped key", ("C14",), "R-MEMO", "xrdtypes.py", '        dtype = np.result_type(dtype, fill_value)\n    return dtype\n',
       '        dtype = _promote_for_fill_value(dtype, fill_value)\n    return dtype\n\n\n@functools.lru_cache\ndef _promote_for_fill_value(dtype: np.dtype, fill_value) -> np.dtype:\n    return np.result_type(dtype, fill_value)\n', must_mention="typed"),
     V("twin: dtype promotion memoised with typed=True", ("C14",), "", "xrdtypes.py", '        dtype = np.result_type(dtype, fill_value)\n    return dtype\n',
